@@ -13,6 +13,7 @@ mod snap;
 mod vals;
 mod codec;
 mod pcol;
+mod galgo;
 mod q;
 mod qmeta;
 mod txstress;
@@ -40,6 +41,7 @@ fn main() {
         "vals" => vals::main(&opts),
         "codec" => codec::main(&opts),
         "pcol" => pcol::main(&opts),
+        "galgo" => galgo::main(&opts),
         "snapfault" => snap::faults(&opts),
         "q" => q::main(&opts),
         "qprobe" => q::probe(&opts),
